@@ -15,6 +15,7 @@ import (
 	"strings"
 	"sync"
 	"testing"
+	"time"
 )
 
 // Case is one witness: a model of the symbolic inputs plus the concrete choice values.
@@ -29,6 +30,7 @@ type Case struct {
 	Obs     map[string]string `json:"obs,omitempty"`    // observables predicted by the engine
 	Records map[string]int64  `json:"records,omitempty"`
 	Params  map[string]int    `json:"params,omitempty"`
+	WalClock [][2]int64       `json:"wal_clock,omitempty"` // (unix second, nanosecond) of each wal.Create, in order
 	Dir     string            `json:"dir,omitempty"`   // pre-built database directory (crash image)
 	Phase   int               `json:"phase,omitempty"` // >= 1: run the recovery harness Fn2
 }
@@ -50,6 +52,7 @@ type state struct {
 	c       *Case
 	nChoose int
 	nCoin   int
+	nWal    int
 	res     Result
 	known   map[string]bool
 	dir     string
@@ -264,6 +267,19 @@ func Recorded(name string) int {
 // CrashHere is a crash point chosen by the harness itself (engine: fork; native: decided by witness).
 func CrashPoint(name string) {}
 
+// WalNow replaces time.Now in an overlay-only copy of wal/wal.go when a witness fixes the
+// clock values that name WAL files (two files created in the same second).
+func WalNow() time.Time {
+	st.mu.Lock()
+	defer st.mu.Unlock()
+	if st.c != nil && st.nWal < len(st.c.WalClock) {
+		v := st.c.WalClock[st.nWal]
+		st.nWal++
+		return time.Unix(v[0], v[1]).UTC()
+	}
+	return time.Now()
+}
+
 type coinSource struct{}
 
 func (coinSource) Seed(int64) {}
@@ -291,7 +307,7 @@ func CoinRand() *rand.Rand { return rand.New(coinSource{}) }
 func runCase(c *Case, fns map[string]func()) (res Result) {
 	st.mu.Lock()
 	st.c = c
-	st.nChoose, st.nCoin = 0, 0
+	st.nChoose, st.nCoin, st.nWal = 0, 0, 0
 	st.res = Result{ID: c.ID}
 	st.known = nil
 	st.dir = ""
